@@ -84,7 +84,7 @@ pub proof fn fact_item_rules_inspections(items: Vec<Box<dyn SupplyChainItem>>, l
 //@extract src/verifylib.rs fn:run_all_inspections stub
 //@contract ret=r
     requires exists|dir: Seq<char>| steps_verified(*layout, dir),      // [C08] no inspection is started unless every earlier stage succeeded
-    ensures r is Ok ==> inspections_ran(*layout, r->Ok_0@),
+//@include contracts/run_all_inspections.rs
 //@end
 //@extract src/verifylib.rs fn:get_summary_link stub
 //@contract ret=r
